@@ -361,6 +361,7 @@ func (l *Linter) LintFiles(filepaths []string, project *Project) ([]*Error, erro
 		rwc := rwcf.GetCache(proj)
 
 		eg.Go(func() error {
+			verifPoint("file-go", w.path, nil, nil)
 			// Bound concurrency on reading files to avoid "too many files to open" error (issue #3)
 			sema.Acquire(ctx, 1)
 			src, err := os.ReadFile(w.path)
@@ -380,6 +381,7 @@ func (l *Linter) LintFiles(filepaths []string, project *Project) ([]*Error, erro
 			}
 			w.src = src
 			w.errs = errs
+			verifPoint("file-done", w.path, nil, nil)
 			return nil
 		})
 	}
